@@ -664,6 +664,7 @@ def build_hooked():
     out = os.path.join(hv.HBIN, "hv-c19hook")
     with hv.Lock("go" + hv.ALT):
         cmd = ["go", "build", "-tags", "verif c19hook", "-o", out]
+        cmd[2:2] = hv.cover_flags()
         if hv.ALT:
             cmd.append("-modfile=" + os.path.join(hv.BUILD, "alt-" + hv.ALT, "go.mod"))
         rc, o, e = hv.sh(cmd + ["./cmd/c19"], cwd=hd, env=hv.GOENV, timeout=1800)
